@@ -126,6 +126,26 @@ def handle (_ : Unit) (toks : List Tok) : Unit × String :=
           pure (encErr res.err ++ " " ++ encList (res.mols.map encMol) ++ " " ++
                 encList (res.reports.map fun rp => encList [encS rp.mutmod, encKind rp.kind, encS rp.post]))
         | _, _ => pure "valueerror"
+    | [Tok.str "history", mods, muts, mlib, blib, ops] => do
+        let mods ← (← mods.list?).mapM pairOf
+        let muts ← (← muts.list?).mapM pairOf
+        let lib : Lib := { protein := C19Table.proteinResidues,
+                           modifications := (← strs? mlib).map String.toList,
+                           blocks := (← strs? blib).map String.toList }
+        let ops ← (← ops.list?).mapM fun t => do
+          match ← t.list? with
+          | [Tok.int 0, ms] => pure (Op.system (← (← ms.list?).mapM molOf))
+          | [Tok.int 1, m] => pure (Op.molecule (← molOf m))
+          | _ => none
+        match parseRequests mods, parseRequests muts with
+        | some pm, some pt =>
+          let rs := runHistory lib { mods := pm, muts := pt, counts := [] } ops
+          pure (" | ".intercalate (rs.map fun r =>
+            match r with
+            | .system res => encErr res.err ++ " " ++ encList (res.mols.map encMol) ++ " " ++
+                encList (res.reports.map fun rp => encList [encS rp.mutmod, encKind rp.kind, encS rp.post])
+            | .molecule atoms err => encErr err ++ " " ++ encList [encMol { atoms := atoms, edges := [] }] ++ " [ ]"))
+        | _, _ => pure "valueerror"
     | [Tok.str "cli", nt, given] => do
         let g ← (← given.list?).mapM pairOf
         let b ← nt.nat?
